@@ -183,7 +183,7 @@ def verify(spec):
                     cex = {'decode_error': '%s: %s' % (type(e).__name__, e)}
             rec = ObRecord(ob, smt2, cex)
             if ob.status == 'refuted' and ob.model is not None:
-                rec.model = str(ob.model)[:2000]
+                rec.model = model_summary(ob.model)
             res.obligations.append(rec)
         if not c.obligations:
             res.error = ('checker-error', '%s generated zero obligations' % spec.label)
@@ -195,6 +195,16 @@ def verify(spec):
         res.error = ('crash', '%s: %s\n%s' % (type(e).__name__, e, traceback.format_exc(limit=12)))
     res.wall = time.time() - t0
     return res
+
+
+def model_summary(m, limit=60):
+    """the solver's counter-model restricted to constants (function graphs omitted)"""
+    out = []
+    for d in m.decls():
+        if d.arity() == 0:
+            v = str(m[d]).replace('\n', ' ')
+            out.append('%s = %s' % (d.name(), v[:160]))
+    return '; '.join(sorted(out)[:limit])
 
 
 def call_contract(name, pre=(), result=None, post=None):
